@@ -1,10 +1,13 @@
 #!/bin/bash
-# tools/seedtarget.sh seed-dir...  : apply each already-confirmed seeded change to /repo (git apply), run
+# tools/seedtarget.sh [--check Cyy] seed-dir...  : apply each already-confirmed seeded change to /repo (git apply), run
 # its target property's check (quick), undo the change straight afterwards (git checkout), and record the
 # result in the seed's meta.json. Evidence and replay files of these runs go to /tmp/seedout.
 cd /verif
+override=""
+if [ "$1" = "--check" ]; then override=$2; shift 2; fi
 for d in "$@"; do
   d=$(readlink -f "$d"); name=$(basename "$d"); id=${name%-*}
+  if [ -n "$override" ]; then id=$override; fi
   if [ -n "$(git -C /repo status --porcelain)" ]; then echo "REFUSING: /repo not clean"; exit 2; fi
   git -C /repo apply --whitespace=nowarn "$d/patch.diff" || { echo "$name PATCH-FAILS"; continue; }
   t0=$(date +%s)
